@@ -247,13 +247,18 @@ theorem handleModeLine_bs {cfg : Cfg} {m m' : M} {l : L} {b : Bool} (hs : isMerg
     · split at e <;> (cases e; exact BS.of_bv ((BV.refl m).of_tl rfl rfl) rfl)
     · cases e; exact BS.pass hs
 
-theorem handleAdditionalCases_bs {cfg : Cfg} {m m' : M} {l : L} {b : Bool} {to : State}
-    (hto : isMergeConflict to = false) (e : handleAdditionalCases cfg m l to = .ok (b, m')) : BS m m' b := by
+/-- `handle_additional_cases` run on a machine `m` that came from `m0` without touching the hunk-line rows -/
+theorem handleAdditionalCases_bs_from {cfg : Cfg} {m0 m m' : M} {l : L} {b : Bool} {to : State} (c0 : BV m0 m)
+    (hto : isMergeConflict to = false) (e : handleAdditionalCases cfg m l to = .ok (b, m')) : BS m0 m' b := by
   unfold handleAdditionalCases at e
-  have c : BV m { flushMP m with st := to } := (BV.refl m).flushMP.of_tl rfl rfl
+  have c : BV m0 { flushMP m with st := to } := c0.flushMP.of_tl rfl rfl
   split at e
   · cases e; exact BS.of_bv (c.emit.writeGeneric cfg _ _) (by simpa using hto)
   · cases e; exact BS.of_bv c hto
+
+theorem handleAdditionalCases_bs {cfg : Cfg} {m m' : M} {l : L} {b : Bool} {to : State}
+    (hto : isMergeConflict to = false) (e : handleAdditionalCases cfg m l to = .ok (b, m')) : BS m m' b :=
+  handleAdditionalCases_bs_from (BV.refl m) hto e
 
 theorem handleMisc_bs {cfg : Cfg} {m m' : M} {l : L} {b : Bool} (hs : isMergeConflict m.st = false)
     (e : handleMisc cfg m l = .ok (b, m')) : BS m m' b := by
@@ -278,7 +283,7 @@ theorem handleSubmoduleLog_bs {cfg : Cfg} {m m' : M} {l : L} {b : Bool} (hs : is
   unfold handleSubmoduleLog at e
   split at e
   · cases e; exact BS.pass hs
-  · exact handleAdditionalCases_bs rfl e
+  · exact handleAdditionalCases_bs_from ((BV.refl m).flushMP.pendingDiffName cfg) rfl e
 
 theorem handleSubmoduleShort_bs {cfg : Cfg} {m m' : M} {l : L} {b : Bool} (hs : isMergeConflict m.st = false)
     (e : handleSubmoduleShort cfg m l = .ok (b, m')) : BS m m' b := by
